@@ -1021,7 +1021,7 @@ func c25(c *Ctx) {
 		}
 	}
 	// search leg
-	nshell := min(c.N/5, 700) // per shard
+	nshell := min(c.N/5, 500) // per shard
 	var sel []int
 	n := 0
 	for i, j := range jobs {
